@@ -109,3 +109,25 @@ Theorem C11_replay_sender_in_instance : forall pers blk fx caps fa cls x k p,
      = Compose.ci c x.
 Proof. exact ComposeLive.replay_sender_in_instance. Qed.
 Print Assumptions C11_replay_sender_in_instance.
+
+(** ** Round "proofs 3": exactly once in the composition, in the acceptor's vocabulary *)
+From WM Require GoChannel.ComposeTrace.
+(** every composed run in which the consumer of x never Nacks: no publication is received twice
+    by x; and in a persistent Pub/Sub, for a registered x and a message p of its topic whose
+    snapshot was taken, there is exactly one Sender, it is a started thread of x's instance, and
+    once it has returned (x not closing) the history of x contains exactly one receipt of p -
+    [Monitor.count_recv ... = 1] is the test [Monitor.mon_persistent_replay] applies.  No glue
+    hypothesis: the Permutation of [C11_replay_exactly_once_composed] is a theorem here. *)
+Theorem C11_replay_count_sound_composed : forall pers blk fx caps fa cls x k p,
+  let c := Compose.crun (Compose.cinit pers blk fx caps fa) cls in
+  let h := MonitorSound.trace x (sinit (caps x) fa)
+             (Compose.sub_labels x (Compose.cinit pers blk fx caps fa) cls) in
+  ComposeTrace.consumer_acks cls x = true ->
+  Monitor.count_recv h x p <= 1
+  /\ (persistent (Compose.cg c) = true -> In x (subs (Compose.cg c) k) ->
+      In p (sent (Compose.cg c)) -> ptopic (Compose.cg c) p = k ->
+      nsenders (Compose.cg c) p x = 1 /\ Sub.thr (Compose.ci c x) p <> Sub.SNone
+      /\ (closing (Compose.ci c x) = false -> (exists q, Sub.thr (Compose.ci c x) p = Sub.SDone q) ->
+          Monitor.count_recv h x p = 1)).
+Proof. exact ComposeTrace.replay_exactly_once_in_composition. Qed.
+Print Assumptions C11_replay_count_sound_composed.
